@@ -26,4 +26,29 @@ LEVELS = {
         "text": "Every cell of every returned array is checked against the transition it must come from, for generated (n_chains, n_collect, n_discard, dim, threads) and sequences of run calls; continuation and manual-stepping equalities are bitwise. Exploration of the grid, not exhaustive in quick.",
         "note": "Real-sampler part relies on C07 determinism; NUTS row semantics read from the NutsEnd hook events.",
     },
+    "C11": {
+        "technique": "runtime monitoring: reference-model oracle (independent f64 split R-hat) + metamorphic relations + panic capture on generated arrays",
+        "text": "Every reported R-hat and summary field is compared with an independent f64 computation on the same f32 input, with tolerances derived from measured input sensitivity; metamorphic relations cover the 'therefore' clauses. Exploration of generated arrays.",
+        "note": "Trusts the f64 reference (written from the statement); either within-variance convention accepted.",
+    },
+    "C12": {
+        "technique": "runtime monitoring: set-valued reference-model oracle (f64 Geyer ESS) across both autocovariance paths + metamorphic relations",
+        "text": "Reported ESS is compared with the set of values an exact Geyer estimator can reach when near-zero pair sums fall either way, on arrays that straddle the brute-force/FFT switch. Exploration of generated arrays.",
+        "note": "Ambiguity threshold 3e-4 on pair sums; sanity bands are coarse by design.",
+    },
+    "C13": {
+        "technique": "runtime monitoring: online checker of the tracker state after every update against batch statistics and the EMA recursion",
+        "text": "The trackers are driven with generated update histories and checked after every update (acceptance EMA) and at the end (count/mean/variance/R-hat, three implementations against each other and the classical formula).",
+        "note": "Tolerances account for f32 running sums; inputs limited to |mean|/sd <= 30.",
+    },
+    "C16": {
+        "technique": "runtime monitoring with fault/draw injection: crafted generator states choose the uniform variate (incl. exactly 0 and 1-ulp) via the Categorical::with_rng hook",
+        "text": "The exact map from uniform variate to category realised by the code is extracted by injection on a stratified grid and at every cumulative-sum boundary; zero-probability categories must never be returned. Exploration of weight vectors; the variates include the extreme representable ones that sampling cannot reach.",
+        "note": "Assumes one uniform per sample() call (read back from a clone).",
+    },
+    "C18": {
+        "technique": "runtime monitoring: exact structural checks over the (n,d) grid (exhaustive in thorough) + calibrated statistical monitors",
+        "text": "Shape/purity/prefix/rounding are exact checks over the grid; normality and independence are calibrated z/KS tests on pooled draws.",
+        "note": "Statistical thresholds sized for < 1e-5 false-alarm probability per run.",
+    },
 }
